@@ -227,7 +227,19 @@ pub fn entryvcd(toks: &[&str]) -> String {
     bytes.extend_from_slice(&hex_bytes(toks[3]));
     std::fs::File::create(&path).unwrap().write_all(&bytes).unwrap();
     let r2 = all_entry_points(&path, 4);
-    if r2.starts_with("DIFF") { format!("{r2}:empty-scope") } else { r }
+    if r2.starts_with("DIFF") {
+        return format!("{r2}:empty-scope");
+    }
+    // ... and with a first header command longer than any fixed-size look-ahead a format probe might use
+    let mut bytes: Vec<u8> = b"$comment ".to_vec();
+    let n = 1000 + (toks[3].len() % 7) * 700;
+    bytes.extend(std::iter::repeat(b"banner ".iter().copied()).take(n).flatten());
+    bytes.extend_from_slice(b"$end\n");
+    bytes.extend_from_slice(&header_for(toks[1]));
+    bytes.extend_from_slice(&hex_bytes(toks[3]));
+    std::fs::File::create(&path).unwrap().write_all(&bytes).unwrap();
+    let r3 = all_entry_points(&path, 4);
+    if r3.starts_with("DIFF") || r3 != r { format!("DIFF:long-first-command:{r3}") } else { r }
 }
 
 pub fn entryfile(toks: &[&str]) -> String {
